@@ -7962,3 +7962,79 @@ def ch2(m, run, rule='CH2.convex-hull-on-all-small-point-sets'):
             bad.append(('points %s' % (order,), why))
     run.ob(rule, '%s :: %d (point set, input order) cases' % (fi.key, len(cases)), not bad, 'every extreme point, boundary points only, once each, counter-clockwise' if not bad else '%s: %s' % bad[0],
            'geomdl/linalg.py:%d in %s' % (fi.node.lineno, fi.key))
+
+
+# ====================================================================================== C09: the weighted grid follows its grid and its weights
+def gw2(m, run, rule='GW2.weighted-grid-follows-its-grid-and-weights'):
+    """GW2: a CPGen.GridWeighted with symbolic extents is built by interpreting its own constructor and driven through the real generate /
+    weight / grid members (exact arithmetic): after generate, after a new scalar and a new per-point weight, after generating again with
+    other division counts (the weighted points of the first grid having been read) and after a weight on the second grid, the grid
+    getter returns, for every (i, j), the current grid point (i, j) multiplied by the current weight at j + i * columns, followed by
+    that weight, in the shape of the current grid"""
+    from .skel import Sym
+    from .poly import Poly
+    cls = ('CPGen', 'GridWeighted')
+    if cls not in m.classes:
+        raise AnalysisError('CPGen.GridWeighted not found')
+    sk = SK(m, dict(STD_ABSTRACTED))
+    sk.exact = True
+    sk.construct = True
+    why = None
+    steps = []
+    try:
+        g = sk.apply(('class', cls), [Sym('sx'), Sym('sy')], {'z_value': Sym('z')}, None)
+
+        def call(name, *a):
+            return sk.call(m.lookup(cls, name, 'methods'), [g] + list(a), {})
+
+        def setw(v):
+            sk.call(m.lookup(cls, 'weight', 'setters'), [g, v], {})
+
+        def view(what):
+            steps.append(what)
+            got = sk.call(m.lookup(cls, 'grid', 'getters'), [g], {})
+            gp, ws = g._a['_grid_points'], g._a['_weights']
+            if not isinstance(got, list) or len(got) != len(gp) or any(len(r_) != len(c_) for r_, c_ in zip(got, gp)):
+                return '%s: the weighted grid has the shape %s, the grid %s' % (what, [len(r_) for r_ in got] if isinstance(got, list) else got, [len(c_) for c_ in gp])
+            for i, cols in enumerate(gp):
+                for j, pt in enumerate(cols):
+                    w = _as_sym(ws[j + i * len(cols)]) if j + i * len(cols) < len(ws) else None
+                    if w is None:
+                        return '%s: no weight for grid point (%d, %d)' % (what, i, j)
+                    cell = got[i][j]
+                    if len(cell) != len(pt) + 1:
+                        return '%s: weighted point (%d, %d) has %d coordinates' % (what, i, j, len(cell))
+                    for c in range(len(pt)):
+                        a_, b_ = _as_sym(cell[c]), _as_sym(pt[c])
+                        if a_ is None or b_ is None or not a_.same(Sym(b_.p * w.p, b_.q)):
+                            return '%s: coordinate %d of weighted point (%d, %d) is %s; the grid point has %s and the weight is %s' % (what, c, i, j, repr(cell[c])[:80], repr(pt[c])[:60], repr(ws[j + i * len(cols)])[:40])
+                    l_ = _as_sym(cell[-1])
+                    if l_ is None or not l_.same(w):
+                        return '%s: weighted point (%d, %d) carries the weight %s, the weight list says %s' % (what, i, j, repr(cell[-1])[:40], repr(ws[j + i * len(cols)])[:40])
+            return None
+        call('generate', 2, 3)
+        why = view('after generate(2, 3)')
+        if why is None:
+            setw(2)
+            why = view('after weight = 2')
+        if why is None:
+            setw([1 + k for k in range(12)])
+            why = view('after a weight per point')
+        if why is None:
+            call('generate', 1, 2)
+            why = view('after generate(1, 2) on a grid whose weighted points were read')
+        if why is None:
+            setw(3)
+            why = view('after weight = 3 on the second grid')
+        if why is None:
+            call('generate', 2, 3)
+            why = view('after generate(2, 3) again')
+    except Violation as v:
+        why = '%s %s   [%s]' % (v.msg, v.where(), steps[-1] if steps else 'construction')
+    except Raised as ex:
+        why = 'raises %s   [%s]' % (ex.kind, steps[-1] if steps else 'construction')
+    except Unsupported as ex:
+        raise AnalysisError('CPGen.GridWeighted: interpreter met an unsupported construct: %s' % ex)
+    ci = m.classes[cls]
+    run.ob(rule, 'CPGen.GridWeighted :: generate / weight / grid, %d reads' % max(len(steps), 1), why is None, 'every read returns grid point x own weight, weight, in the shape of the current grid' if why is None else why,
+           'geomdl/CPGen.py:%d class GridWeighted' % ci.node.lineno)
